@@ -27,6 +27,11 @@ func c01load(g *Gen, i int, prog []GenPkg) (types.Universe, error) {
 		if err := b.AddFileForTest(gp.Path, gp.Path+"/file.go", []byte(gp.Src)); err != nil {
 			return nil, err
 		}
+		// a second, later file of the same package that imports nothing: the package's imports are those of
+		// ALL its files
+		if err := b.AddFileForTest(gp.Path, gp.Path+"/zz_last.go", []byte("package "+gp.Name+"\n")); err != nil {
+			return nil, err
+		}
 	}
 	return b.FindTypes()
 }
